@@ -34,6 +34,16 @@ def run(ctx, rep):
     r1(ctx, rep, res, where)
     r2(ctx, rep, res, where)
     r3(ctx, rep)
+    # spellings of one number (2 / 2.0 / 2e0) and of one name ('a' / "a" / .a) must meet the same evaluator paths
+    from vflib.report import Shared
+    from vflib.terms import Evaluator
+    from rules import c01, c04
+    prog = ctx.prog
+    ev = Evaluator(prog)
+    c04.shared_numeric_eq(prog, ev, rep, "C13-R4")
+    rep.rule("C13-R4", "number spellings: whichever operand shapes a comparison meets (literal, function result, node), equality goes "
+             "through the one value-equality helper whose numeric branch compares by value, so `2`, `2.0` and `2e0` behave alike")
+    c01.r2(prog, ev, Shared(rep, {"C01-R2": "C13-R5"}, lender="C01", only_keys=["Segment::Descendant"]))
 
 
 def r1(ctx, rep, res, where):
